@@ -12,6 +12,15 @@ const vC13Gedcom = "0 @I1@ INDI\n1 NAME John /Smith/\n1 SEX M\n1 BIRT\n2 DATE 3 
 	"0 @I3@ INDI\n1 NAME Bob /Smith/\n1 BIRT\n2 DATE 1875\n1 FAMC @F1@\n" +
 	"0 @F1@ FAM\n1 HUSB @I1@\n1 WIFE @I2@\n1 CHIL @I3@\n"
 
+// vC13Gedcom2: three generations with the grandparents' family recorded last, so that @I1@ is a spouse
+// in one family and a child in a later one, and @I2@ has no parents on record.
+const vC13Gedcom2 = "0 @I1@ INDI\n1 NAME John /Smith/\n1 SEX M\n1 BIRT\n2 DATE 3 Sep 1843\n1 FAMS @F1@\n1 FAMC @F2@\n" +
+	"0 @I2@ INDI\n1 NAME Jane /Doe/\n1 SEX F\n1 BIRT\n2 DATE 1850\n1 FAMS @F1@\n" +
+	"0 @I3@ INDI\n1 NAME Bob /Smith/\n1 BIRT\n2 DATE 1875\n1 FAMC @F1@\n" +
+	"0 @F1@ FAM\n1 HUSB @I1@\n1 WIFE @I2@\n1 CHIL @I3@\n" +
+	"0 @I4@ INDI\n1 NAME Old /Smith/\n1 SEX M\n1 BIRT\n2 DATE 1810\n1 FAMS @F2@\n" +
+	"0 @F2@ FAM\n1 HUSB @I4@\n1 CHIL @I1@\n"
+
 func vPtrs(ns IndividualNodes) string {
 	var out []string
 	for _, n := range ns {
@@ -42,7 +51,7 @@ func vSafe(what string, f func() string) (s string) {
 func vViews(doc *Document) string {
 	var sb []string
 	sb = append(sb, "individuals="+vPtrs(doc.Individuals()), "families="+vFamPtrs(doc.Families()))
-	for _, p := range []string{"I1", "I2", "I3", "I9", "F1", "F9", "ZZ"} {
+	for _, p := range []string{"I1", "I2", "I3", "I4", "I9", "F1", "F2", "F8", "F9", "N1", "ZZ"} {
 		n := doc.NodeByPointer(p)
 		if IsNil(n) {
 			sb = append(sb, "byptr."+p+"=nil")
@@ -283,11 +292,16 @@ func vC13ApplyGuarded(doc *Document, op int) (isRead bool, name string, crashed 
 	return
 }
 
-// VerifC13_History: every history of cs%3+1 operations (24 edits, 7 reads) on a small family; after
+// VerifC13_History: on the 3-person family (cs%2 == 0) or the three-generation document whose
+// grandparents' family comes last (cs%2 == 1), every history of cs/2%3+1 operations (24 edits, 7 reads) on a small family; after
 // every step each view equals the same view on a fresh decode of the current text; reads change nothing.
 func VerifC13_History(cs int) {
-	k := cs%3 + 1
-	doc, err := NewDocumentFromString(vC13Gedcom)
+	k := cs/2%3 + 1
+	text := vC13Gedcom
+	if cs%2 == 1 {
+		text = vC13Gedcom2
+	}
+	doc, err := NewDocumentFromString(text)
 	VsAssume(err == nil)
 	vWarmViews(doc)
 	nops := len(vC13Edits) + len(vC13Reads)
